@@ -547,15 +547,15 @@ theorem binop_intarith (sc : Bool) (l r : Operand) (ol : OperandOk l) (or' : Ope
     unfold arithOk at ha; split at ha
     · rename_i _ _ _ a b c hl hr; simp [hl, hr, Ty.isArith]
     · simp at ha
-  rcases hop with rfl | rfl | rfl | rfl | rfl | rfl
-  case inr.inr.inr.inl =>
-    simp [binopOk, bothInteger] at h
-    have i1 := isInt_of_isIntegerT _ h.1.1
-    have i2 := isInt_of_isIntegerT _ h.1.2
-    simp [binopType, binopOk, okOptT, h1, h2, i1, i2, bothInteger, h.1.1, h.1.2]
-  all_goals
-    simp [binopOk] at h
-    simp [binopType, binopOk, okOptT, h1, h2, hl.1, hl.2, h]
+  rcases hop with rfl | rfl | rfl | rfl | rfl | rfl <;>
+  first
+  | (simp [binopOk, bothInteger] at h
+     have i1 := isInt_of_isIntegerT _ h.1.1
+     have i2 := isInt_of_isIntegerT _ h.1.2
+     simp [binopType, binopOk, okOptT, h1, h2, i1, i2, bothInteger, h.1.1, h.1.2]
+     done)
+  | (simp [binopOk] at h
+     simp [binopType, binopOk, okOptT, h1, h2, hl.1, hl.2, h])
 
 theorem exprconvert_ty_arith (l : Operand) (a p : ATy) (hl : l.ty = .arith a) :
     (exprconvert l (.arith p)).ty = .arith p := by
